@@ -7,6 +7,8 @@ R2 sentinel agreement: per mode, clear / fill / is_completely_masked / update us
 R3 locality: fill fills the whole buffer with the sentinel and assigns only buffer[by, bx]; update writes
    only through buffer[by, bx]
 R4 the two dtype -> mode tables agree
+R7 buffer layout: for every mode M the array allocated by make_maskable_buffer (dimensions, channels, dtype) is one that the
+   library's own dtype -> mode table classifies as M again (RGB -> RGBA, the mode with the mask channel)
 R5 persistence: a fully masked tile unlinks exactly the path it would have been saved to; a missing tile
    reads as None / a fresh all-undefined buffer per `default`; only errno 2 is treated as 'missing'
 """
@@ -44,7 +46,7 @@ INTS = {"U8", "I16", "I32"}
 def run(run):
     run.explanation = EXPLANATION
     run.undecided_clauses += ["pixel-exact read-back per codec (PIL / astropy / numpy I/O)"]
-    for r, n in (("C15.R1", 6), ("C15.R2", 8), ("C15.R3", 2), ("C15.R4", 1), ("C15.R5", 3), ("C15.R6", 3)):
+    for r, n in (("C15.R1", 6), ("C15.R2", 8), ("C15.R3", 2), ("C15.R4", 1), ("C15.R5", 3), ("C15.R6", 3), ("C15.R7", 8)):
         run.floor(r, n)
     project = run.project
     members = _enum_members(project)
@@ -55,6 +57,7 @@ def run(run):
     _r2_conventions(run, members, chains)
     _r3_locality(run)
     _r4_dtype_tables(run)
+    buffer_layouts(run, "C15.R7", members)
     _r5_persistence(run)
     from . import imgrep
     imgrep.check(run, "C15.R6")
@@ -449,6 +452,108 @@ def _r4_dtype_tables(run):
     else:
         run.holds("C15.R4", f1, None, "_array_to_mode and ImageMode.from_array_info map (ndim, channels, kind, itemsize) to modes identically on all %d grid cases (%d modes)" % (len(t1), n_modes),
                   rows=len(t1))
+
+
+NP_DTYPES = {"uint8": ("u", 1), "uint16": ("u", 2), "uint32": ("u", 4), "uint64": ("u", 8), "int8": ("i", 1), "int16": ("i", 2), "int32": ("i", 4),
+             "int64": ("i", 8), "float16": ("f", 2), "float32": ("f", 4), "float64": ("f", 8), "half": ("f", 2), "single": ("f", 4), "double": ("f", 8),
+             "ubyte": ("u", 1), "byte": ("i", 1), "short": ("i", 2), "intc": ("i", 4), "float_": ("f", 8)}
+NP_CODES = {"u1": ("u", 1), "u2": ("u", 2), "u4": ("u", 4), "u8": ("u", 8), "i1": ("i", 1), "i2": ("i", 2), "i4": ("i", 4), "i8": ("i", 8),
+            "f2": ("f", 2), "f4": ("f", 4), "f8": ("f", 8)}
+
+
+def _dtype_of_term(t):
+    """(kind, itemsize) of a dtype expression: np.int16, 'int16', '<i2', np.dtype(<one of these>); None when not a literal dtype."""
+    if t[0] == "call" and show(t[1]) in ("np.dtype", "numpy.dtype", "dtype") and len(t[2]) == 1:
+        return _dtype_of_term(t[2][0])
+    if t[0] == "attr" and t[1] in (("sym", "np"), ("sym", "numpy")):
+        return NP_DTYPES.get(t[2])
+    if t[0] == "const" and isinstance(t[1], str):
+        v = t[1].lstrip("<>=|")
+        return NP_DTYPES.get(v) or NP_CODES.get(v)
+    if t == ("sym", "float"):
+        return ("f", 8)
+    return None
+
+
+def buffer_layouts(run, rule, members=None):
+    """For every mode M: the array make_maskable_buffer allocates, classified by ImageMode.from_array_info (the table
+    Image.from_array uses for the very same array), is of mode M again -- RGBA for RGB.  A buffer of another dtype converts
+    every pixel pasted into it (int32 data wrap in an int16 buffer) and changes the mode of every tile built from it."""
+    project = run.project
+    members = members or _enum_members(project)
+    f = project.fn(IMG + ".ImageMode.make_maskable_buffer")
+    run.note_func(f)
+
+    def role_info(a):
+        s_ = show(a)
+        if s_ in ("len(shape)",):
+            return "NDIM"
+        if s_ == "shape#2":
+            return "SHAPE2"
+        if s_.endswith(".kind") and "dtype" in s_:
+            return "KIND"
+        if s_.endswith(".itemsize") and "dtype" in s_:
+            return "ITEMSIZE"
+        return None
+    fi, table = _mode_table(project, IMG + ".ImageMode.from_array_info", role_info)
+    run.note_func(fi)
+    for m in members:
+        r = _eval_for_mode(project, f, "mode-object", m)
+        rets = [x for x in r.returns if not [c for c in x[0] if c[0] != "loop"]]
+        if len(rets) != 1:
+            if not r.returns and [e for e in r.events if e.kind == "raise"]:
+                continue                    # R1 reports a mode without a branch
+            run.undecided(rule, f, None, "make_maskable_buffer for %s: %d unconditional results, cannot name the buffer" % (m, len(rets)), kind="layout-shape-" + m, mode=m)
+            continue
+        allocs = [x for x in _subterms_of(rets[0][1]) if x and x[0] == "call" and len(x) == 4 and show(x[1]).split(".")[-1] in ("empty", "zeros", "ones", "full", "ndarray")
+                  and show(x[1]).split(".")[0] in ("np", "numpy")]
+        if len(allocs) != 1 or not allocs[0][2]:
+            run.undecided(rule, f, rets[0][2], "make_maskable_buffer for %s returns %s: no single numpy allocation to read the layout from" % (m, show(rets[0][1])[:100]),
+                          kind="layout-alloc-" + m, mode=m)
+            continue
+        a = allocs[0]
+        shape = a[2][0]
+        kw = dict(a[3])
+        fn_ = show(a[1]).split(".")[-1]
+        dt = kw.get("dtype")
+        if dt is None:
+            pos_ = 2 if fn_ == "full" else 1
+            dt = a[2][pos_] if len(a[2]) > pos_ else None
+        dk = ("f", 8) if dt is None else _dtype_of_term(dt)
+        if shape[0] not in ("tuple", "list") or dk is None:
+            run.undecided(rule, f, rets[0][2], "make_maskable_buffer for %s allocates %s: shape / dtype are not literal" % (m, show(a)[:100]), kind="layout-literal-" + m, mode=m)
+            continue
+        dims = shape[1]
+        ch = None
+        if len(dims) >= 3:
+            v = num_value(dims[2])
+            if v is None:
+                run.undecided(rule, f, rets[0][2], "make_maskable_buffer for %s: channel count %s is not a constant" % (m, show(dims[2])[:40]), kind="layout-literal-" + m, mode=m)
+                continue
+            ch = int(v)
+        want = "RGBA" if m == "RGB" else m
+        keys = [k for k in table if k[0] == len(dims) and (len(dims) < 3 or k[1] == ch) and k[2] == dk[0] and k[3] == dk[1]]
+        got = {table[k] for k in keys}
+        if not keys:
+            got = {"RAISE"}
+        if got == {"MODE:" + want}:
+            run.holds(rule, f, rets[0][2], "%s: buffer %s is classified %s by from_array_info" % (m, show(a)[:70], want), mode=m)
+        elif any(g is UNKNOWN or g == "UNKNOWN" for g in got) or len(got) != 1:
+            run.undecided(rule, f, rets[0][2], "%s: cannot classify the buffer %s with from_array_info" % (m, show(a)[:70]), kind="layout-classify-" + m, mode=m)
+        else:
+            g = sorted(got, key=repr)[0]
+            run.violated(rule, f, rets[0][2], "the maskable buffer for mode %s is %s, which from_array_info classifies as %s, not %s: pixels pasted into it are converted "
+                         "to that type (values outside its range wrap) and every tile built from the buffer is stored in the other mode" % (
+                             m, show(a)[:80], "no mode at all" if g == "RAISE" else g[5:], want), kind="buffer-layout-" + m, mode=m)
+
+
+def _subterms_of(t):
+    if isinstance(t, tuple):
+        yield t
+        for x in t:
+            if isinstance(x, tuple):
+                for y in _subterms_of(x):
+                    yield y
 
 
 def _r5_persistence(run):
